@@ -47,6 +47,9 @@ func (sms *sqlMetadataStore) DeleteObject(ctx context.Context, tx *sql.Tx, bucke
 				return nil, metadatastore.ErrPreconditionFailed
 			}
 		}
+		if opts.IfMatchLastModifiedTime != nil && !versionEntity.UpdatedAt.Equal(*opts.IfMatchLastModifiedTime) {
+			return nil, metadatastore.ErrPreconditionFailed
+		}
 
 		if !versionEntity.IsDeleteMarker {
 			removed, removeErr := sms.removePartRowsByObjectId(ctx, tx, *versionEntity.Id)
@@ -97,6 +100,11 @@ func (sms *sqlMetadataStore) DeleteObject(ctx context.Context, tx *sql.Tx, bucke
 			if currentEntity == nil || currentEntity.IsDeleteMarker || currentEntity.ETag != *opts.IfMatchETag {
 				return nil, metadatastore.ErrPreconditionFailed
 			}
+		}
+	}
+	if opts != nil && opts.IfMatchLastModifiedTime != nil {
+		if currentEntity == nil || currentEntity.IsDeleteMarker || !currentEntity.UpdatedAt.Equal(*opts.IfMatchLastModifiedTime) {
+			return nil, metadatastore.ErrPreconditionFailed
 		}
 	}
 
@@ -153,7 +161,7 @@ func (sms *sqlMetadataStore) DeleteObject(ctx context.Context, tx *sql.Tx, bucke
 	}
 
 	if currentEntity != nil {
-		if opts != nil && opts.IfMatchETag != nil {
+		if opts != nil && (opts.IfMatchETag != nil || opts.IfMatchLastModifiedTime != nil) {
 			lockedObjectEntity := *currentEntity
 			locked, lockErr := sms.objectRepository.UpdateObjectByIdAndOptimisticLockVersion(ctx, tx, &lockedObjectEntity, currentEntity.OptimisticLockVersion)
 			if lockErr != nil {
